@@ -411,7 +411,13 @@ func (b *Builder) Unit(kind hist.UnitKind) hist.Unit {
 		if r.Chance(1, 5) {
 			// ... and comments in front of it are logged with it: tools tag their
 			// statements, mysqldump wraps DDL in version comments
-			switch r.Intn(8) {
+			switch r.Intn(11) {
+			case 8: // a line comment followed by more comment or by an indented statement
+				u.SQL = "-- a\n-- b\n" + u.SQL
+			case 9:
+				u.SQL = "# a\n\t " + u.SQL
+			case 10:
+				u.SQL = "-- a\n/* b */ " + u.SQL
 			case 5: // nothing between the end of the comment and the keyword
 				u.SQL = "/*c*/" + u.SQL
 			case 6:
